@@ -1,4 +1,5 @@
 import Acv.Driver.Decode
+import Acv.Driver.ParseOp
 import Acv.Model.PipelineChecks
 import Acv.Model.Report
 import Acv.Model.Cli
@@ -274,6 +275,7 @@ def runOp (j : Json) : R Json := do
   | "c14" => opC14 j
   | "c08" => opC08 j
   | "c05" => opC05 j
+  | "parse" => opParse j
   | op => throw s!"unknown op {op}"
 
 def handleLine (line : String) : String :=
